@@ -13,7 +13,7 @@ the integral of the denoted piecewise linear function, and the initial / final v
 unless the path runs through a documented class (`pathTags`) -/
 def Claim (pt : PT) : Prop :=
   ∀ σ mm cm P c o, denote pt σ mm cm = .ok P → regular pt σ = true → InjOn cm pt.definedChannels →
-    c ∈ pt.definedChannels → cm.lookup c = some (some o) →
+    c ∈ pt.definedChannels → cm.lookup c = some (some o) → keeps pt cm = true →
     (∀ r, integralOf pt σ c = .ok r → r = plIntegral (pulseVal P o)) ∧
     (∀ e, pathTags e pt σ mm cm c = .ok [] → ∀ v v', plEnd e (pulseVal P o) = some v →
       endOf e pt σ c = .ok v' → v' = v)
@@ -24,7 +24,7 @@ theorem evalsTo_iff {σ : Scope} {e : Expr} {p : Rat → Bool} :
   cases σ.eval e <;> simp
 
 theorem claim_rep (id body count meas cons) (ih : Claim body) : Claim (.rep id body count meas cons) := by
-  intro σ mm cm P c o hden hreg hinj hc hcm
+  intro σ mm cm P c o hden hreg hinj hc hcm hkeep
   rw [denote] at hden
   simp only [bind_ok_iff] at hden
   obtain ⟨_, _, cnt, hcnt, hden⟩ := hden
@@ -74,7 +74,7 @@ theorem claim_rep (id body count meas cons) (ih : Claim body) : Claim (.rep id b
     subst hr
     rw [hval, plIntegral_replicate]
     by_cases hpos : 0 < n
-    · have ihb := (ih σ mm cm b c o (hb hpos) hregb hinj hc hcm).1 v hv
+    · have ihb := (ih σ mm cm b c o (hb hpos) hregb hinj hc hcm (by simpa [keeps] using hkeep)).1 v hv
       rw [← ihb]
       have h1 : ((n.toNat : Nat) : Int) = n := Int.toNat_of_nonneg hn0
       have : ((n.toNat : Nat) : Rat) = (n : Rat) := by
@@ -89,7 +89,7 @@ theorem claim_rep (id body count meas cons) (ih : Claim body) : Claim (.rep id b
     rw [endOf] at hv'
     by_cases hpos : 0 < n
     · rw [plEnd_replicate e _ _ (by omega)] at hv
-      exact (ih σ mm cm b c o (hb hpos) hregb hinj hc hcm).2 e htags v v' hv hv'
+      exact (ih σ mm cm b c o (hb hpos) hregb hinj hc hcm (by simpa [keeps] using hkeep)).2 e htags v v' hv hv'
     · have : n = 0 := by omega
       subst this
       rw [Int.toNat_zero, PL_replicate_zero, plEnd_nil] at hv
@@ -116,13 +116,15 @@ theorem claim_mapping (id body pm mm' cm' cons) (ih : Claim body)
       (fun c => match cm'.lookup c with | some (some o) => some o | _ => none)) = false)
     (hnd' : hasDup body.definedChannels = false) :
     Claim (.mapping id body pm mm' cm' cons) := by
-  intro σ mm cm P ch o hden hreg hinj hc hcm
+  intro σ mm cm P ch o hden hreg hinj hc hcm hkeep
   rw [denote] at hden
   simp only [bind_ok_iff] at hden
   obtain ⟨_, _, mmU, hmm, cmU, hcmU, hden⟩ := hden
   rw [regular] at hreg
   simp only [PT.definedChannels] at hinj hc
   have hlk := updatedCm_lookup hcmU
+  have hkeepU : keeps body cmU = true := by
+    simp only [keeps, hcmU] at hkeep; exact hkeep
   -- injectivity of the updated channel mapping on the body's channels
   have hinjU : InjOn cmU body.definedChannels := by
     intro c1 c2 o' h1 h2 l1 l2
@@ -159,7 +161,7 @@ theorem claim_mapping (id body pm mm' cm' cons) (ih : Claim body)
     simp only [bind_ok_iff, keyOf_ok_iff] at hr
     obtain ⟨c, hic, hr⟩ := hr
     obtain ⟨hm, hl⟩ := inner c hic
-    exact (ih (.mapped σ pm) mmU cmU P c o hden hreg hinjU hm hl).1 r hr
+    exact (ih (.mapped σ pm) mmU cmU P c o hden hreg hinjU hm hl hkeepU).1 r hr
   · intro e htags v v' hv hv'
     rw [pathTags] at htags
     rw [endOf] at hv'
@@ -170,7 +172,7 @@ theorem claim_mapping (id body pm mm' cm' cons) (ih : Claim body)
     rw [hmm] at hmm2; cases hmm2
     rw [hcmU] at hcmU2; cases hcmU2
     obtain ⟨hm, hl⟩ := inner c hic
-    exact (ih (.mapped σ pm) mmU cmU P c o hden hreg hinjU hm hl).2 e htags v v' hv hv'
+    exact (ih (.mapped σ pm) mmU cmU P c o hden hreg hinjU hm hl hkeepU).2 e htags v v' hv hv'
 
 /-! ### sequences -/
 
@@ -194,7 +196,7 @@ theorem tags_nil_iff {t : Bool} {rest : Except Err (List Tag)} :
 theorem seq_integral {subs : List PT} {σ mm cm} {c o : Chan} (hcm : cm.lookup c = some (some o))
     (ih : ∀ p ∈ subs, Claim p) :
     ∀ parts, denoteList subs σ mm cm = .ok parts → regularAll subs σ = true →
-      (∀ p ∈ subs, c ∈ p.definedChannels ∧ InjOn cm p.definedChannels) →
+      (∀ p ∈ subs, c ∈ p.definedChannels ∧ InjOn cm p.definedChannels ∧ keeps p cm = true) →
       ∀ r, integralSum subs σ c = .ok r → r = plIntegral (parts.map (fun p => pulseVal p o)).flatten := by
   induction subs with
   | nil =>
@@ -209,8 +211,8 @@ theorem seq_integral {subs : List PT} {σ mm cm} {c o : Chan} (hcm : cm.lookup c
     simp only [regularAll, Bool.and_eq_true] at hreg
     simp only [integralSum, bind_ok_iff, pure_ok_iff] at hr
     obtain ⟨ra, hra, rb, hrb, rfl⟩ := hr
-    have h1 := (ih p (List.mem_cons_self ..) σ mm cm a c o ha hreg.1 (hch p (List.mem_cons_self ..)).2
-      (hch p (List.mem_cons_self ..)).1 hcm).1 ra hra
+    have h1 := (ih p (List.mem_cons_self ..) σ mm cm a c o ha hreg.1 (hch p (List.mem_cons_self ..)).2.1
+      (hch p (List.mem_cons_self ..)).1 hcm (hch p (List.mem_cons_self ..)).2.2).1 ra hra
     have h2 := ihl (fun q hq => ih q (List.mem_cons_of_mem _ hq)) b hb hreg.2
       (fun q hq => hch q (List.mem_cons_of_mem _ hq)) rb hrb
     simp only [List.map_cons, List.flatten_cons, plIntegral_append, ← h1, ← h2]
@@ -218,7 +220,7 @@ theorem seq_integral {subs : List PT} {σ mm cm} {c o : Chan} (hcm : cm.lookup c
 theorem seq_ends {σ mm cm} {c o : Chan} (hcm : cm.lookup c = some (some o)) (e : End) :
     ∀ (subs : List PT), (∀ p ∈ subs, Claim p) →
     ∀ parts, denoteList subs σ mm cm = .ok parts → regularAll subs σ = true →
-      (∀ p ∈ subs, c ∈ p.definedChannels ∧ InjOn cm p.definedChannels) →
+      (∀ p ∈ subs, c ∈ p.definedChannels ∧ InjOn cm p.definedChannels ∧ keeps p cm = true) →
       pathTagsEnd e subs σ mm cm c = .ok [] →
       (subs ≠ [] → e = .last → (parts.map (fun p => pulseVal p o)).flatten ≠ []) ∧
       ∀ v v', plEnd e (parts.map (fun p => pulseVal p o)).flatten = some v → endOfEnd e subs σ c = .ok v' → v' = v
@@ -237,8 +239,8 @@ theorem seq_ends {σ mm cm} {c o : Chan} (hcm : cm.lookup c = some (some o)) (e 
     refine ⟨fun _ _ => htags.1, ?_⟩
     intro v v' hv hv'
     rw [endOfEnd] at hv'
-    exact (ih p (List.mem_cons_self ..) σ mm cm a c o ha hreg.1 (hch p (List.mem_cons_self ..)).2
-      (hch p (List.mem_cons_self ..)).1 hcm).2 e htags.2 v v' hv hv'
+    exact (ih p (List.mem_cons_self ..) σ mm cm a c o ha hreg.1 (hch p (List.mem_cons_self ..)).2.1
+      (hch p (List.mem_cons_self ..)).1 hcm (hch p (List.mem_cons_self ..)).2.2).2 e htags.2 v v' hv hv'
   | p :: q :: more, ih, parts, hd, hreg, hch, htags => by
     simp only [denoteList, bind_ok_iff, pure_ok_iff] at hd
     obtain ⟨a, ha, b, hb, rfl⟩ := hd
@@ -256,8 +258,8 @@ theorem seq_ends {σ mm cm} {c o : Chan} (hcm : cm.lookup c = some (some o)) (e 
       intro v v' hv hv'
       rw [endOfEnd] at hv'
       rw [plEnd_first_append_of_ne_nil _ _ htags.1] at hv
-      exact (ih p (List.mem_cons_self ..) σ mm cm a c o ha hreg.1 (hch p (List.mem_cons_self ..)).2
-        (hch p (List.mem_cons_self ..)).1 hcm).2 .first htags.2 v v' hv hv'
+      exact (ih p (List.mem_cons_self ..) σ mm cm a c o ha hreg.1 (hch p (List.mem_cons_self ..)).2.1
+        (hch p (List.mem_cons_self ..)).1 hcm (hch p (List.mem_cons_self ..)).2.2).2 .first htags.2 v v' hv hv'
     | last =>
       rw [pathTagsEnd] at htags
       have hrec := seq_ends hcm .last (q :: more) (fun r hr => ih r (List.mem_cons_of_mem _ hr)) b hb' hreg'
@@ -280,18 +282,28 @@ theorem sameChannels_mem {cs : List Chan} {subs : List PT} (h : sameChannels cs 
     · exact sameSet_mem h.1 x
     · exact ih h.2 p hp x
 
+theorem keepsAll_mem {subs : List PT} {cm} (h : keepsAll subs cm = true) : ∀ p ∈ subs, keeps p cm = true := by
+  induction subs with
+  | nil => intro p hp; cases hp
+  | cons q qs ih =>
+    simp only [keepsAll, Bool.and_eq_true] at h
+    intro p hp
+    rcases List.mem_cons.mp hp with rfl | hp
+    · exact h.1
+    · exact ih h.2 p hp
+
 theorem claim_seq (id subs meas cons) (ih : ∀ p ∈ subs, Claim p)
     (hsame : sameChannels (PT.firstChannels subs) subs = true) : Claim (.seq id subs meas cons) := by
-  intro σ mm cm P c o hden hreg hinj hc hcm
+  intro σ mm cm P c o hden hreg hinj hc hcm hkeep
   rw [denote] at hden
   simp only [bind_ok_iff, pure_ok_iff] at hden
   obtain ⟨_, _, ms, _, parts, hparts, p, happ, rfl⟩ := hden
   rw [regular] at hreg
   simp only [PT.definedChannels] at hinj hc
   have hmem := sameChannels_mem hsame
-  have hch : ∀ q ∈ subs, c ∈ q.definedChannels ∧ InjOn cm q.definedChannels := by
+  have hch : ∀ q ∈ subs, c ∈ q.definedChannels ∧ InjOn cm q.definedChannels ∧ keeps q cm = true := by
     intro q hq
-    refine ⟨(hmem q hq c).mpr hc, ?_⟩
+    refine ⟨(hmem q hq c).mpr hc, ?_, keepsAll_mem (by simpa [keeps] using hkeep) q hq⟩
     intro c1 c2 o' h1 h2
     exact hinj c1 c2 o' ((hmem q hq c1).mp h1) ((hmem q hq c2).mp h2)
   have hval : pulseVal (p.withOwn ms) o = (parts.map (fun q => pulseVal q o)).flatten := by
@@ -371,7 +383,8 @@ theorem mapM_singleton {α β} (f : α → Except Err β) (x : α) (ys : List β
   · rintro ⟨y, hy, rfl⟩; exact ⟨y, hy, [], rfl, rfl⟩
 
 theorem loop_integral {body : PT} {σ : Scope} {idx : String} {mm cm} {c o : Chan}
-    (hcm : cm.lookup c = some (some o)) (ih : Claim body) (hinj : InjOn cm body.definedChannels)
+    (hcm : cm.lookup c = some (some o)) (ih : Claim body) (hkeep : keeps body cm = true)
+    (hinj : InjOn cm body.definedChannels)
     (hc : c ∈ body.definedChannels) (ai si : Int) :
     ∀ (N : Nat) (parts : List Pulse),
       ((List.range N).map (fun (k : Nat) => ai + si * (k : Int))).mapM
@@ -397,7 +410,7 @@ theorem loop_integral {body : PT} {σ : Scope} {idx : String} {mm cm} {c o : Cha
     obtain ⟨r1, hr1, r2, hr2, rfl⟩ := hr
     have e1 := ihN parts1 hp1 (fun k hk => hreg k (by omega)) r1 hr1
     rw [← idx_cast] at hr2
-    have e2 := (ih _ mm cm y c o hy (hreg N (by omega)) hinj hc hcm).1 r2 hr2
+    have e2 := (ih _ mm cm y c o hy (hreg N (by omega)) hinj hc hcm hkeep).1 r2 hr2
     simp only [List.map_append, List.flatten_append, List.map_cons, List.map_nil, List.flatten_cons,
       List.flatten_nil, List.append_nil, plIntegral_append, ← e1, ← e2]
 theorem tags3_nil_iff {p : Prop} [Decidable p] {t : Bool} {rest : Except Err (List Tag)} :
@@ -412,9 +425,10 @@ theorem tags3_nil_iff {p : Prop} [Decidable p] {t : Bool} {rest : Except Err (Li
 
 theorem claim_forLoop (id body idx start stop step meas cons) (ih : Claim body) :
     Claim (.forLoop id body idx start stop step meas cons) := by
-  intro σ mm cm P c o hden hreg hinj hc hcm
+  intro σ mm cm P c o hden hreg hinj hc hcm hkeep
   obtain ⟨ai, bi, si, parts, p, ms, ha, hb, hs, hsi, hparts, hp, rfl, hall⟩ := forLoop_unfold hden hreg
   simp only [PT.definedChannels] at hinj hc
+  have hkeepb : keeps body cm = true := by simpa [keeps] using hkeep
   have hval : pulseVal (p.withOwn ms) o = (parts.map (fun q => pulseVal q o)).flatten := by
     rw [pulseVal_withOwn, pulseVal_appendAll hp]
   rw [hval]
@@ -441,7 +455,7 @@ theorem claim_forLoop (id body idx start stop step meas cons) (ih : Claim body) 
       have hN : ((if stepCount ai bi si ≤ 1 then 1 else stepCount ai bi si) - 1 + 1).toNat = rangeLen ai bi si := by
         split <;> omega
       rw [hN] at hr
-      refine loop_integral hcm ih hinj hc ai si (rangeLen ai bi si) parts hparts ?_ r hr
+      refine loop_integral hcm ih hkeepb hinj hc ai si (rangeLen ai bi si) parts hparts ?_ r hr
       intro k hk
       apply hall
       exact List.mem_map.mpr ⟨k, List.mem_range.mpr hk, rfl⟩
@@ -474,7 +488,7 @@ theorem claim_forLoop (id body idx start stop step meas cons) (ih : Claim body) 
         simp only [List.map_cons, List.flatten_cons] at hv
         rw [plEnd_first_append_of_ne_nil _ _ htags.1] at hv
         have hreg0 := hall i0 (by rw [hr]; exact List.mem_cons_self ..)
-        exact (ih _ mm cm part0 c o h0 hreg0 hinj hc hcm).2 .first htags.2 v v' hv hv'
+        exact (ih _ mm cm part0 c o h0 hreg0 hinj hc hcm hkeepb).2 .first htags.2 v v' hv hv'
     | last =>
       rw [endOf] at hv'
       simp only [ha, hb, hs, ok_bind, hsr, if_false] at hv'
@@ -502,7 +516,7 @@ theorem claim_forLoop (id body idx start stop step meas cons) (ih : Claim body) 
         rw [plEnd_last_append_of_ne_nil _ _ hne] at hv
         rw [hidx] at hv' htl
         have hregl := hall iLast (by rw [hinit]; simp)
-        exact (ih _ mm cm y c o hy hregl hinj hc hcm).2 .last htl v v' hv hv'
+        exact (ih _ mm cm y c o hy hregl hinj hc hcm hkeepb).2 .last htl v v' hv hv'
 
 /-! ### atoms -/
 
@@ -555,7 +569,7 @@ theorem const_pulseVal (id dur amps meas) (hnd : hasDup (amps.map (·.1)) = fals
 
 theorem claim_const (id dur amps meas) (hnd : hasDup (amps.map (·.1)) = false) :
     Claim (.const id dur amps meas) := by
-  intro σ mm cm P c o hden hreg hinj hc hcm
+  intro σ mm cm P c o hden hreg hinj hc hcm hkeep
   simp only [PT.definedChannels] at hinj hc
   rw [mem_dedup] at hc
   obtain ⟨e, he⟩ := lookup_isSome_of_mem_keys amps c hc
@@ -595,7 +609,7 @@ theorem pulseVal_singleton (d : Rat) (o : Chan) (pl : PL) (ms : List Window) :
 
 theorem claim_func (id ch0 dur e meas cons) (haff : e.affineIn "t" = true) :
     Claim (.func id ch0 dur e meas cons) := by
-  intro σ mm cm P c o hden hreg hinj hc hcm
+  intro σ mm cm P c o hden hreg hinj hc hcm hkeep
   simp only [PT.definedChannels, List.mem_singleton] at hc
   subst hc
   rw [regular, evalsTo_iff] at hreg
@@ -652,7 +666,7 @@ theorem regular_table_spec {id entries meas cons} {σ : Scope} (h : regular (.ta
   exact this
 
 theorem claim_table (id entries meas cons) : Claim (.table id entries meas cons) := by
-  intro σ mm cm P c o hden hreg hinj hc hcm
+  intro σ mm cm P c o hden hreg hinj hc hcm hkeep
   simp only [PT.definedChannels] at hc
   rw [mem_dedup] at hc
   obtain ⟨es, he⟩ := lookup_isSome_of_mem_keys entries c hc
@@ -799,7 +813,7 @@ theorem plIntegral_reversed (p : PL) : plIntegral p.reversed = plIntegral p := b
     simp only [plIntegral, plIntegral_map_amb]
 
 theorem claim_timeReversal (id body) (ih : Claim body) : Claim (.timeReversal id body) := by
-  intro σ mm cm P c o hden hreg hinj hc hcm
+  intro σ mm cm P c o hden hreg hinj hc hcm hkeep
   rw [denote] at hden
   simp only [bind_ok_iff, pure_ok_iff] at hden
   obtain ⟨b, hb, rfl⟩ := hden
@@ -808,7 +822,7 @@ theorem claim_timeReversal (id body) (ih : Claim body) : Claim (.timeReversal id
   constructor
   · intro r hr
     rw [integralOf] at hr
-    have := (ih σ mm cm b c o hb hreg hinj hc hcm).1 r hr
+    have := (ih σ mm cm b c o hb hreg hinj hc hcm (by simpa [keeps] using hkeep)).1 r hr
     rw [this]
     simp only [pulseVal]
     rw [lookup_map_snd b.chans (fun pl => PL.reversed pl) o]
@@ -818,43 +832,5 @@ theorem claim_timeReversal (id body) (ih : Claim body) : Claim (.timeReversal id
   · intro e _ v v' _ hv'
     rw [endOf] at hv'
     cases hv'
-
-/-! ### the induction -/
-
-mutual
-theorem claim : ∀ (pt : PT), supported pt = true → Claim pt
-  | .const id dur amps meas, h => by
-      simp only [supported, Bool.not_eq_true'] at h
-      exact claim_const id dur amps meas h
-  | .func id ch dur e meas cons, h => by
-      simp only [supported] at h
-      exact claim_func id ch dur e meas cons h
-  | .seq id subs meas cons, h => by
-      simp only [supported, Bool.and_eq_true] at h
-      exact claim_seq id subs meas cons (claimAll subs h.1) h.2
-  | .rep id body count meas cons, h => by
-      simp only [supported] at h
-      exact claim_rep id body count meas cons (claim body h)
-  | .forLoop id body idx start stop step meas cons, h => by
-      simp only [supported] at h
-      exact claim_forLoop id body idx start stop step meas cons (claim body h)
-  | .mapping id body pm mm' cm' cons, h => by
-      simp only [supported, Bool.and_eq_true, Bool.not_eq_true'] at h
-      exact claim_mapping id body pm mm' cm' cons (claim body h.1.1.1) h.1.1.2 h.1.2 h.2
-  | .table id entries meas cons, _ => claim_table id entries meas cons
-  | .timeReversal id body, h => by
-      simp only [supported] at h
-      exact claim_timeReversal id body (claim body h)
-  | .point .., h | .parallel .., h | .atomicMulti .., h | .arith .., h | .arithAtomic .., h => by
-      simp [supported] at h
-theorem claimAll : ∀ (subs : List PT), supportedAll subs = true → ∀ p ∈ subs, Claim p
-  | [], _ => fun p hp => nomatch hp
-  | q :: qs, h => by
-      simp only [supportedAll, Bool.and_eq_true] at h
-      intro p hp
-      rcases List.mem_cons.mp hp with hpq | hp
-      · rw [hpq]; exact claim q h.1
-      · exact claimAll qs h.2 p hp
-end
 
 end QP.C07
